@@ -125,6 +125,8 @@ type PipelineJob struct {
 	sched      *taskctl.Scheduler
 	taskRunner runner.Runner
 	startTimer *time.Timer
+	// cancelRequested is set when the scheduler of a started job was told to stop
+	cancelRequested bool
 }
 
 func (j *PipelineJob) isRunning() bool {
@@ -498,6 +500,11 @@ func (r *PipelineRunner) JobCompleted(id uuid.UUID, err error) {
 	job.Completed = true
 	now := time.Now()
 	job.End = &now
+	if err == nil && job.cancelRequested && !job.Tasks.allFinished() {
+		// The scheduler was stopped without a task being interrupted (e.g. the cancel arrived between two tasks),
+		// so the remaining tasks did not run: this is a canceled job and not a successful one
+		err = context.Canceled
+	}
 	job.LastError = err
 
 	// Set canceled flag on the job if a task was canceled through the context
@@ -981,6 +988,7 @@ func (r *PipelineRunner) cancelJobInternal(id uuid.UUID) error {
 	}
 
 	cancelFunc := job.sched.Cancel
+	job.cancelRequested = true
 
 	r.wg.Add(1)
 	go (func() {
@@ -1124,6 +1132,16 @@ func (jt jobTasks) sortTasksByDependencies() {
 		// Otherwise order by rank
 		return ri < rj
 	})
+}
+
+// allFinished is true if every task ran to its end (or was skipped)
+func (jt jobTasks) allFinished() bool {
+	for i := range jt {
+		if jt[i].Status != "done" && jt[i].Status != "skipped" {
+			return false
+		}
+	}
+	return true
 }
 
 func (jt jobTasks) ByName(name string) *jobTask {
